@@ -92,20 +92,16 @@ func (g *Graph) continueWalking(found chan x509.CertificateChain, start *GraphEd
 	}
 
 	// Try to find the next node. Get edges that all go to the same node.
-	for skfp, edgeSet := range current.parentsBySubjectAndKey {
-		targetNode := g.nodesBySubjectAndKey[skfp]
+	// Every certificate we could add next belongs to current. If current's
+	// SubjectAndKey is already in the chain, following any of them would revisit
+	// it, so stop here. (Checking the node being entered, rather than the issuer
+	// of each candidate edge, also lets the walk end at a root edge whose own
+	// issuer happens to be in the chain.)
+	if soFar.SubjectAndKeyInChain(current.SubjectAndKey) {
+		return
+	}
 
-		// Check to see if these edges are taking us to something already in the
-		// chain. If the node's SubjectAndKey is already in the chain, don't bother.
-		if targetNode != nil {
-			if soFar.SubjectAndKeyInChain(targetNode.SubjectAndKey) {
-				continue
-			}
-		}
-
-		// We're not going to revisit anything now. On the off chance the targetNode
-		// was nil, we also aren't doing a duplicate visit, because if we were, the
-		// edge would not be dangling.
+	for _, edgeSet := range current.parentsBySubjectAndKey {
 		for _, edge := range edgeSet.edges {
 			certType := x509.CertificateTypeIntermediate
 			if edge.root {
